@@ -134,9 +134,9 @@ def ob_log(n: int, k: int, maxsize: int) -> bool:
         if events[i] != 'established':
             written += 1
     if mode == 'crash':
-        if P.get('offsets') == 'all':
-            assume(0 <= k <= 220)
-            fs.crash_at = k
+        if P.get('offsets') == 'dense':
+            assume(0 <= k <= 10)
+            fs.crash_at = ('dense', k)
         else:
             # boundary offsets of the line in flight: 0, 1, 2, middle, all but "}\n", all but "\n", whole line
             assume(0 <= k <= 6)
@@ -200,6 +200,6 @@ def obligations(tier, seed):
                         continue
                     out.append(ob('C20/crash/%s/after=%s/rotate=%s/n=%d' % (pname, aname, rotate, nn), 'ob_log',
                                   {'events': evs, 'after': aft, 'mode': 'crash', 'rotate': rotate, 'n': nn,
-                                   'offsets': 'boundary' if quick else 'all'},
+                                   'offsets': 'boundary' if quick else 'dense'},
                                   covers=['crashed'], cap=280 if quick else 800))
     return out
